@@ -100,9 +100,16 @@ impl C09 {
         let r = guarded(|| {
             let e = toml_edit::DocumentMut::from_str(text).map(|d| obs::edit_table_to_r(d.as_table())).map_err(|e| e.to_string());
             let t = toml::from_str::<toml::Table>(text).map(|t| obs::toml_table_to_r(&t)).map_err(|e| e.to_string());
-            (e, t)
+            // targets that throw the content away must still see the refusal
+            let ign = [
+                ("toml::from_str::<IgnoredAny>", toml::from_str::<serde::de::IgnoredAny>(text).is_ok()),
+                ("toml_edit::de::from_str::<IgnoredAny>", toml_edit::de::from_str::<serde::de::IgnoredAny>(text).is_ok()),
+                ("toml::Value::from_str", toml::Value::from_str(text).is_ok()),
+                ("toml_edit::Value::from_str(inline)", true),
+            ];
+            (e, t, ign)
         });
-        let (e, t) = match r {
+        let (e, t, ign) = match r {
             Ok(x) => x,
             Err((loc, msg)) => {
                 ctx.violation(&format!("panic:{}", crate::short_loc(&loc)), format!("parser panicked at {loc}: {msg}"));
@@ -112,6 +119,12 @@ impl C09 {
         if e.is_ok() != t.is_ok() {
             ctx.violation("entry-points-disagree", format!("DocumentMut: {:?}, toml::Table: {:?}", e.as_ref().map(|_| "ok"), t.as_ref().map(|_| "ok")));
             return;
+        }
+        for (name, ok) in ign.iter().take(3) {
+            if *ok != e.is_ok() {
+                ctx.violation("entry-points-disagree", format!("DocumentMut: {:?}, {name}: {}", e.as_ref().map(|_| "ok"), if *ok { "ok" } else { "refused" }));
+                return;
+            }
         }
         if nstmts >= 2 {
             ctx.nontrivial(hash_bytes(text.as_bytes()));
